@@ -119,10 +119,12 @@ Definition compile_all (ops : list aop) : list op := flat_map compile ops.
 (* what Relation::new builds: no qualifier, no architecture list, no profiles *)
 Definition new_only (r : relrec) : bool :=
   plain r && match rr_qual r with None => true | Some _ => false end.
-(* the operations the constructor-level theorems cover: operands are Entry::from(vec![Relation::new(..), ..]) *)
+(* the operations the constructor-level theorems cover: operands are Entry::from(vec![Relation::new(..), ..])
+   and Relation::new(..) *)
 Definition aop_plain (o : aop) : bool :=
   match o with
   | APush e | AInsert _ e | AReplace _ e => forallb new_only e
+  | AEPush _ r | AEReplace _ _ r => new_only r
   | ASetVersion _ _ v => ver_ok v
   | ARemoveEntry _ | ARemoveRelation _ _ | ADropConstraint _ _ | ASetArchqual _ _ _ => true
   | _ => false
@@ -199,10 +201,11 @@ Definition relrec_ok (r : relrec) : bool :=
   && match rr_ver r with Some (_, v) => ident_text v | None => true end.
 Definition entry_ok (e : list relrec) : bool := has_more e && forallb relrec_ok e.
 Definition lfield_ok (f : lfield) : bool := forallb entry_ok f.
-(* the eight operations, with operands Entry::from(vec![Relation::new(name, version), ..]) *)
+(* the ten operations, with operands Entry::from(vec![Relation::new(name, version), ..]) / Relation::new *)
 Definition aop_ok (o : aop) : bool :=
   match o with
   | APush e | AInsert _ e | AReplace _ e => entry_ok e && forallb new_only e
+  | AEPush _ r | AEReplace _ _ r => relrec_ok r && new_only r
   | ASetVersion _ _ (Some (_, v)) => ident_text v
   | ASetVersion _ _ None => true
   | ASetArchqual _ _ q => ident_text q
